@@ -6,6 +6,7 @@
 -/
 import Bridge.Abs
 import PtaProofs.Lemmas.Builders
+import PtaProofs.Lemmas.AnythingDedup
 namespace Pta.C13
 open Pta PtaSpec
 
@@ -42,12 +43,75 @@ theorem no_match (mt : Str → Str → Bool) (g : PGraph Str) (b : Behavior) (di
     matchRule mt g b dir subs objs = .err .impossibleMatch :=
   Pta.no_match_lemma mt g b dir subs objs h
 
-/-- known finding F-C13b (open): for `anything` rules the parent/sub-module de-duplication runs on names before
-    any lookup, so an absent name that is a dotted extension of another subject is silently dropped.
-    The rule returns a verdict although it mentions the absent module `p.a.zz`. -/
-theorem unknown_name_counterexample_anything :
-    (runRuleOps noGlob (fun _ _ => false)
+/-- finding F-C13b, repaired (`Rule._assert_modules_removed_by_alias_conversion_exist`): for `anything` rules the
+    parent/sub-module de-duplication runs on names before any lookup, so an absent name that is a dotted extension of
+    another subject used to be dropped silently and the rule returned a verdict although it mentions the absent module
+    `p.a.zz` (the former witness `unknown_name_counterexample_anything : … = .pass`). On the same witness the rule is
+    now rejected with a lookup error, raised by `assert_applies` (call index 4). -/
+theorem unknown_name_anything_rejected :
+    runRuleOps noGlob (fun _ _ => false)
       [.modulesThat, .areNamed ["p.a".toList, "p.a.zz".toList], .shouldNot, .importAnything]
+      (buildGraph ["p".toList, "p.a".toList, "q".toList] [] none) = (.err .lookupError, 4) := by decide
+
+/-- an `anything` rule (`should_not().import_anything()` / `be_imported_by_anything()`) that mentions (by name or as a
+    parent) a module absent from the graph raises a lookup error — whether `_convert_aliases` drops that subject (the
+    new existence check) or keeps it (the lookup of the queries). Every graph, every regex interpretation. -/
+theorem anything_unknown_name (mt : Str → Str → Bool) (g : PGraph Str) (dir : Bool) (S : List Filter)
+    (hnoregex : ∀ f ∈ S, f.isRegex = false)
+    (hmissing : ∃ f ∈ S, g.hasNode f.id = false) :
+    (assertApplies mt { cfg := { subjects := some S, shouldNot := true, importDir := some dir, anything := true },
+                        next := some false } g).2 = .err .lookupError :=
+  Pta.anything_unknown_name_lemma mt g dir S hnoregex hmissing
+
+/-- the same for the fluent call chains `modules_that().are_named(ns) / are_sub_modules_of(ns) .should_not()
+    .import_anything() / .be_imported_by_anything()`: the lookup error is raised by `assert_applies` -/
+theorem anything_unknown_name_history (glob : Str → Str) (mt : Str → Str → Bool) (g : PGraph Str) (ns : List Str)
+    (sub : Bool) (dir : Bool) (hmissing : ∃ n ∈ ns, g.hasNode n = false) :
+    runRuleOps glob mt
+      [.modulesThat, if sub then .areSubModulesOf ns else .areNamed ns, .shouldNot,
+       if dir then .importAnything else .beImportedByAnything] g = (.err .lookupError, 4) := by
+  obtain ⟨n, hn, hm⟩ := hmissing
+  cases sub <;> cases dir <;>
+    simp only [runRuleOps, runRuleOps.go, RuleState.step, RuleState.setModules, Bool.false_eq_true, if_false, if_true]
+  · rw [anything_unknown_name mt g false (ns.map .name) (by simp [Filter.isRegex]) ⟨.name n, List.mem_map_of_mem hn, hm⟩]
+  · rw [anything_unknown_name mt g true (ns.map .name) (by simp [Filter.isRegex]) ⟨.name n, List.mem_map_of_mem hn, hm⟩]
+  · rw [anything_unknown_name mt g false (ns.map .parent) (by simp [Filter.isRegex]) ⟨.parent n, List.mem_map_of_mem hn, hm⟩]
+  · rw [anything_unknown_name mt g true (ns.map .parent) (by simp [Filter.isRegex]) ⟨.parent n, List.mem_map_of_mem hn, hm⟩]
+
+/-- layer rules get the same check (`LayerRule.assert_applies` delegates to `Rule.assert_applies`): an `access_any_layer` /
+    `be_accessed_by_any_layer` rule one of whose subject filters names a module that does not exist raises the lookup error -/
+theorem layer_anything_unknown_name (mt : Str → Str → Bool) (g : PGraph Str) (a : LArch) (dir : Bool) (S : List Filter)
+    (hnoregex : ∀ f ∈ S, f.isRegex = false)
+    (hmissing : ∃ f ∈ S, g.hasNode f.id = false) :
+    assertAppliesLayer mt ⟨some a, some { cfg := { subjects := some S, shouldNot := true, importDir := some dir,
+                                                    anything := true }, next := some false }⟩ g = .err .lookupError :=
+  Pta.layer_anything_unknown_name_lemma mt g a dir S hnoregex hmissing
+
+/-- a layer whose modules are `p.a` and the absent `p.a.zz`, through the LayerRule call chain -/
+example :
+    let a : LArch := [("L".toList, [.name "p.a".toList, .name "p.a.zz".toList]), ("M".toList, [.name "q".toList])]
+    runLayerRuleOps (fun _ _ => false)
+      [.basedOn a, .layersThat, .areNamed ["L".toList] false, .shouldNot, .accessAny]
+      (buildGraph ["p".toList, "p.a".toList, "q".toList] [] none) = (.err .lookupError, 5) := by decide
+
+/-! non-vacuity of `anything_unknown_name`: a dropped absent subject (`p.a.zz`, new check) and a retained one (`zz`) -/
+example : ∀ f ∈ ([.name "p.a".toList, .name "p.a.zz".toList] : List Filter), f.isRegex = false := by decide
+example : ∃ f ∈ ([.name "p.a".toList, .name "p.a.zz".toList] : List Filter),
+    (buildGraph ["p".toList, "p.a".toList, "q".toList] [] none).hasNode f.id = false := by decide
+example : dedupSubjects [.name "p.a".toList, .name "p.a.zz".toList] = [.name "p.a".toList] := by decide
+example : droppedAbsent (buildGraph ["p".toList, "p.a".toList, "q".toList] [] none)
+    (convertAliases { subjects := some [.name "p.a".toList, .name "p.a.zz".toList], shouldNot := true,
+                      importDir := some true, anything := true }) = true := by
+  decide
+example : droppedAbsent (buildGraph ["p".toList, "p.a".toList, "q".toList] [] none)
+    (convertAliases { subjects := some [.name "p.a".toList, .name "zz".toList], shouldNot := true,
+                      importDir := some true, anything := true }) = false := by
+  decide
+example : ∃ f ∈ ([.name "p.a".toList, .name "zz".toList] : List Filter),
+    (buildGraph ["p".toList, "p.a".toList, "q".toList] [] none).hasNode f.id = false := by decide
+/-- when all subjects exist the rule still yields a verdict (the new check does not over-reject) -/
+example : (runRuleOps noGlob (fun _ _ => false)
+      [.modulesThat, .areNamed ["p".toList, "p.a".toList], .shouldNot, .importAnything]
       (buildGraph ["p".toList, "p.a".toList, "q".toList] [] none)).1 = .pass := by decide
 
 /-- LayerRule histories: a history rejected by the specification automaton raises a configuration error at
